@@ -391,6 +391,50 @@ class Gen:
     partial_fns = True
     bessel = True
 
+    def nest(self, e, mode):
+        """Wrap e in 2-4 layers of conj / real (rarely imag / complex-literal factor), separated by
+        products / sums with coefficients so that the constructors do not fold the layers: Conj, Real,
+        Imag and complex literals then sit BELOW Real / Conj nodes (and each other)."""
+        r = self.r
+        for _ in range(r.choice([2, 2, 3, 4])):
+            k = r.randrange(20)
+            sep = r.choice([lambda a: a * self.f, lambda a: a + self.f2, lambda a: self.c * a,
+                            lambda a: a / (self.f2 + 3), lambda a: abs(a) + a, lambda a: a])
+            if k < 8:
+                e = ufl.real(sep(e))
+            elif k < 16:
+                e = ufl.conj(sep(e))
+            elif k < 18 or mode == "complex":
+                e = ufl.imag(sep(e)) if mode == "complex" or r.random() < 0.5 else ufl.real(sep(e))
+            else:
+                e = complex(0, r.choice([1, 2, -1])) * sep(e)
+        return e
+
+    def below(self, e):
+        """complex mode: put e (which contains ordering comparisons) below the nodes whose handlers are
+        not the default rule: real / imag / abs / conj / power / sqrt / indexed"""
+        r = self.r
+        for _ in range(r.choice([1, 2, 2, 3])):
+            k = r.randrange(8)
+            if k == 0:
+                e = ufl.real(e + self.f)
+            elif k == 1:
+                e = ufl.imag(e * self.f)
+            elif k == 2:
+                e = abs(e - self.c)
+            elif k == 3:
+                e = ufl.conj(e) * self.v
+            elif k == 4:
+                e = (e + self.v) ** r.choice([2, 3, -1, 0.5])
+            elif k == 5:
+                e = ufl.sqrt(e * e + 1)
+            elif k == 6:
+                i = Index()
+                e = ufl.conditional(ufl.gt(self.v, 0), ufl.as_vector([e, self.v]), self.vv)[i] * self.x[i]
+            else:
+                e = r.choice([ufl.exp, ufl.cos, ufl.tanh])(e)
+        return e
+
     def expr(self, mode):
         """One integrand.  Raises nothing: construction errors (division by zero, folding domain
         errors) are retried."""
@@ -400,6 +444,10 @@ class Gen:
                 d = r.choice([3, 3, 4, 4, 5])
                 real = r.random() < (0.5 if mode == "complex" else 0.3)
                 e = self.scalar(d, real, mode)
+                if mode == "real" and r.random() < 0.45:
+                    e = ufl.as_ufl(self.nest(e, mode))
+                elif mode == "complex" and r.random() < 0.3 and count_tree(e, lambda x: isinstance(x, ORDERING)):
+                    e = ufl.as_ufl(self.below(e))
                 if tree_size(e) < 5 and r.random() < 0.9:
                     continue
                 if tree_size(e) > 120:
@@ -693,3 +741,95 @@ def oracle_real(inp, out, seed, trials=6):
                           "valuation": {str(k): repr(x) for k, x in val.vals.items()}})
             break
     return probs
+
+
+# ------------------------------------------------------------------------------------------------
+# small-scope exhaustive searches (run only after a tie broke): the property itself is the oracle
+
+def real_mode_problem(inp, out, seed=777):
+    """property of real mode on one input: None if it holds"""
+    if out is None:
+        return None
+    bad_in = [n for n in nodes(inp) if isinstance(n, (C.Imag, C.ComplexValue))]
+    if bad_in:
+        return {"kind": "imag-or-complex-literal-accepted", "node": str(bad_in[0])[:200]}
+    probs = oracle_real(inp, out, seed, 8)
+    return probs[0] if probs else None
+
+
+def small_scope_real(run_real, lower=None):
+    """all nestings (depth 1..3) of {conj, real, imag, complex-literal factor} over a coefficient, layers
+    separated by products with distinct coefficients so that no constructor folds them"""
+    import itertools
+    f = uflgen.coef()
+    gs = [uflgen.coef(), uflgen.coef(), uflgen.coef()]
+    W = {"conj": ufl.conj, "real": ufl.real, "imag": ufl.imag, "cplx": lambda a: 2j * a}
+    found = []
+    for depth in (1, 2, 3):
+        for names in itertools.product(W, repeat=depth):
+            try:
+                e = f
+                for k, nm in enumerate(reversed(names)):
+                    e = W[nm](gs[k] * e)
+                e = ufl.as_ufl(e)
+                if lower is not None:
+                    e = lower(e)
+                out = run_real(e)
+            except Exception:
+                continue
+            p = real_mode_problem(e, out)
+            if p:
+                found.append({"nesting": "(".join(names), "input": str(e), "input_repr": repr(e)[:2000],
+                              "output": str(out), "problem": p})
+                if len(found) >= 3:
+                    return found
+    return found
+
+
+def small_scope_complex(run_complex):
+    """ordering comparison / min / max with real and with complex operands, below 0..2 layers of the nodes
+    that have their own handler (real, imag, abs, conj, power, sqrt, indexed) or the default one"""
+    import itertools
+    m = uflgen.mesh("triangle")
+    x = ufl.SpatialCoordinate(m)
+    v, vv, f, c = uflgen.arg(0), uflgen.arg(1, (2,)), uflgen.coef(), uflgen.const()
+    operands = [(v, x[0]), (f, v), (v, c), (2j * abs(v), x[1]), (f ** 2, v), (v ** 0.5, v), (abs(f), ufl.imag(f)),
+                (ufl.sqrt(v), x[0]), (v * x[0] + 1, 2.0)]
+    sites = []
+    for a, b in operands:
+        sites.append(lambda a=a, b=b: ufl.conditional(ufl.lt(a, b), v, 2 * v))
+        sites.append(lambda a=a, b=b: ufl.max_value(a, b))
+        sites.append(lambda a=a, b=b: ufl.conditional(ufl.Not(ufl.ge(a, b)), x[0], x[1]))
+
+    def idx(e):
+        i = Index()
+        return ufl.conditional(ufl.gt(v, 0), ufl.as_vector([e, v]), vv)[i] * x[i]
+    U = {"id": lambda e: e, "real": lambda e: ufl.real(e + f), "imag": lambda e: ufl.imag(e * f),
+         "abs": lambda e: abs(e - c), "conj": lambda e: ufl.conj(e) * v, "pow": lambda e: (e + v) ** 2,
+         "sqrt": lambda e: ufl.sqrt(e * e + 1), "indexed": idx, "exp": lambda e: ufl.exp(e),
+         "sum": lambda e: e + f}
+    found = []
+    for u1, u2 in itertools.product(U, repeat=2):
+        for mk in sites:
+            try:
+                e = ufl.as_ufl(U[u1](U[u2](mk())))
+                out, _t = run_complex(e)
+            except Exception:
+                continue
+            if out is None:
+                continue
+            probs = [p for p in oracle_complex(e, out, 4243, 8) if not p.get("known_class")]
+            if probs:
+                found.append({"below": f"{u1}({u2}(.))", "input": str(e), "input_repr": repr(e)[:2000],
+                              "output": str(out), "problem": probs[0]})
+                if len(found) >= 3:
+                    return found
+    return found
+
+
+def handler_arity(algo_cls):
+    """(handler name -> number of parameters incl. self, cutoff?) for every handler a live instance uses"""
+    from ufl.corealg.multifunction import MultiFunction, get_num_args
+    inst = algo_cls()
+    names = sorted(set(MultiFunction._handlers_cache[algo_cls][0]))
+    return [(n, get_num_args(getattr(inst, n)) == 2) for n in names]
